@@ -495,7 +495,9 @@ class Model:
                 if ev[0] in (st.get('deferred') or []):
                     cd = dict(st.get('cond_defer') or [])
                     if ev[0] in cd:
-                        if self.eval_guard(ms, ['g', cd[ev[0]]], ev):
+                        v = self.atom_value(cd[ev[0]])      # deferral predicate: logged like a guard, no script position
+                        self.tok('g%d=%d/%s' % (cd[ev[0]], v, self.evdesc(ev)))
+                        if v:
                             return True
                     else:
                         return True
